@@ -73,7 +73,17 @@ def rw_body(cfg, lat, start_idx, maxeval, completed):
     def body(ctx):
         post = EvalLog(lat.value, ctx)
         x = lat.coords(start_idx)
-        if warm:
+        if warm == 2:
+            # the state is INSTALLED, the way a parallel-tempering exchange installs it: the chain is built at another
+            # state, then replace_last(x) and the stored probability is overwritten (tempering_process does exactly this)
+            others = [s for s in lat.states() if s != tuple(start_idx)]
+            x0 = lat.coords(others[(sum(start_idx) + len(others) // 2) % len(others)])
+            with lib("construct"):
+                chain = build_rw_chain(kind, post, x0, sigma, T, cfg["limits"], lat, dirs)
+            with lib("replace_last"):
+                chain.replace_last(x.copy())
+                chain.probs[-1] = lat.value(x) * chain.inv_temp
+        elif warm:
             delta = cfg["warm_delta"]
             if kind == "PcaChain" and dirs is not None:
                 shift = sum(np.array(v, dtype=float) for v in dirs) * delta * sigma
@@ -339,8 +349,10 @@ def rw_cases(ck):
         for limits in lims:
             for T in (1.0, 2.5):
                 for ti, target in enumerate(targets1):
-                    for warm in (0, 1):
+                    for warm in (0, 1, 2):
                         if quick and (ti + warm + ck.seed) % 2 and target not in ("unimodal",):
+                            continue
+                        if warm == 2 and target in ("holes",):
                             continue
                         N = 6 + (ck.seed + ti) % 3
                         aname = "a4" if limits is None else "a6"
@@ -382,6 +394,8 @@ def run(ck):
     ck.run_cases("hmc", hmc_cases(ck), chunk=1)
     ck.run_cases("ens", ens_cases(ck), chunk=1)
     ck.run_cases("l1hist", l1hist_cases(ck), chunk=2)
+    ck.run_cases("ens_iter", [dict(d=d, alpha=al, walkers=nw, order=list(o)) for d, nw in ((2, 3), (2, 4)) for al in ((2.0,) if ck.quick else (2.0, 3.0))
+                              for o in (list(itertools.permutations(range(nw)))[:: (nw if ck.quick else 1)] if nw == 3 else [tuple(range(nw)), tuple(reversed(range(nw)))][: (1 if ck.quick else 2)])], chunk=1)
     # each chain run under parallel tempering: the exchange move itself (shared with C08's exchange evaluator)
     ck.run_cases("exchange", [dict(chains=k, N=N, seed=1 + ck.seed, presteps=pre, ladder=lad)
                               for k, N, pre, lad in (("GibbsChain", 2, 0, "sorted"), ("GibbsChain", 3, 1, "unsorted"), ("HamiltonianChain", 2, 1, "unsorted"),
@@ -928,3 +942,85 @@ def l1hist_cases(ck):
     for kind in ("GibbsChain", "MetropolisChain"):
         out.append(dict(sampler=kind, d=1, T=1.0, warm=5, limits=None, seed=11 + ck.seed, bound=3, max_tries=1, maxeval=6))
     return out
+
+
+# --------------------------------------------------------------------------- ensemble: a whole iteration, walker after walker
+def ev_ens_iter(case):
+    """One full iteration of the ensemble (max_attempts = 1, so one proposal per walker) over every partner choice, two stretch
+    quantiles and both outcomes for every walker: each proposal must be a stretch move between the CURRENT positions of two
+    different walkers (walkers moved earlier in the iteration are used at their new positions), decided with the
+    Metropolis-Hastings probability z^(n-1) pi(Y)/pi(X_current); at the end positions and probabilities are the tracked ones."""
+    from inference.mcmc import EnsembleSampler
+
+    d, a, nw = case["d"], case["alpha"], case["walkers"]
+    base = ENS_POS[d] if not (d == 2 and nw == 3) else [ENS_POS[2][0], ENS_POS[2][1], ENS_POS[2][3]]  # (three walkers not nearly collinear)
+    pos0 = np.array(base[:nw], dtype=float)[case["order"]]
+    fails, fkeys, tags = [], set(), set()
+    nexec = ntrans = 0
+
+    def add_fail(key, what, **kw):
+        if key not in fkeys:
+            fkeys.add(key)
+            fails.append(fail(key, what, config=case, **kw))
+
+    def body(ctx):
+        post = EvalLog(ens_post, ctx)
+        with lib("construct"):
+            e = EnsembleSampler(posterior=post, starting_positions=pos0.copy(), alpha=a, display_progress=False)
+        e.max_attempts = 1
+        e.rng = ScriptedGenerator(ctx, quantiles=(0.25, 0.75))
+        post.arm()
+        with lib("advance"):
+            e.advance(1)
+        return {"positions": np.array(e.walker_positions, dtype=float), "probs": np.array(e.walker_probs, dtype=float)}
+
+    for ctx, res in explore(body, max_exec=60000):
+        nexec += 1
+        cur = pos0.copy()
+        moved = set()
+        pend = None
+        ok = True
+        for o in ctx.obs:
+            if o[0] == "eval":
+                Y = np.array(o[1])
+                cands = []
+                for i in range(nw):
+                    for j in range(nw):
+                        if i != j:
+                            z = line_ratio(Y, cur[i], cur[j])
+                            if z is not None and 1 / a - 1e-9 <= z <= a + 1e-9:
+                                cands.append((i, j, z))
+                ntrans += 1
+                if not cands:
+                    add_fail("ensemble-iteration/proposal-not-a-stretch-move-between-current-walker-positions",
+                             f"proposal {tuple(Y)} is not on a line through two walkers at their current positions {cur.tolist()} (walkers already moved this iteration: {sorted(moved)})", choices=ctx.choices)
+                    ok = False
+                    break
+                pend = (Y, cands)
+            elif o[0] == "cmp" and pend is not None:
+                Y, cands = pend
+                pend = None
+                thr = min(max(o[3], 0.0), 1.0)
+                fit = [(i, j, z) for i, j, z in cands if abs(min(1.0, z ** (d - 1) * math.exp(ens_post(Y) - ens_post(cur[i]))) - thr) <= 1e-10]
+                if not fit:
+                    i, j, z = cands[0]
+                    add_fail("ensemble-iteration/threshold-not-MH-probability-from-the-current-position",
+                             f"walker {i} -> {tuple(Y)}: uniform compared with {o[3]!r}, z^(n-1) pi(Y)/pi(X) = {min(1.0, z ** (d - 1) * math.exp(ens_post(Y) - ens_post(cur[i])))!r}", choices=ctx.choices)
+                    ok = False
+                    break
+                i, j, z = fit[0]
+                if j in moved:
+                    tags.add(f"ens-iter:d={d}:partner-already-moved-this-iteration")
+                if o[5]:
+                    cur[i] = Y
+                    moved.add(i)
+        if ok and res is not None:
+            if not np.allclose(res["positions"], cur, atol=1e-12):
+                add_fail("ensemble-iteration/final-positions-differ-from-accepted-moves", f"{res['positions'].tolist()} vs {cur.tolist()}", choices=ctx.choices)
+            elif any(abs(res["probs"][k] - ens_post(cur[k])) > 1e-12 * (1 + abs(res["probs"][k])) for k in range(nw)):
+                add_fail("ensemble-iteration/walker-probabilities-not-posterior-at-final-positions", f"{res['probs'].tolist()}", choices=ctx.choices)
+            tags.add(f"ens-iter:d={d}:moved={len(moved)}")
+    return {"fails": fails, "n": nexec, "states": nexec, "transitions": ntrans, "tags": tags, "sample": {"config": case, "executions": nexec}}
+
+
+EVALUATORS["ens_iter"] = ev_ens_iter
